@@ -8,6 +8,29 @@ Local Open Scope list_scope.
 
 Definition vertex := N.
 
+(* TaggedValue: a tag's value, or the marker that it comes from an @optional scope that did not exist *)
+Inductive tagged := TNone (* NonexistentOptional *) | TSome (v : fv).
+
+(* BTreeMap<FieldRef, _> as an association list (keys compared with FieldRef's Ord, see IR.v) *)
+Fixpoint lookup_ref {A} (k : fieldref) (l : list (fieldref * A)) : option A :=
+  match l with
+  | [] => None
+  | (k', a) :: r => if fieldref_eqb k k' then Some a else lookup_ref k r
+  end.
+(* BTreeMap::insert: replace or add *)
+Fixpoint insert_ref {A} (k : fieldref) (a : A) (l : list (fieldref * A)) : list (fieldref * A) :=
+  match l with
+  | [] => [(k, a)]
+  | (k', a') :: r => if fieldref_eqb k k' then (k, a) :: r else (k', a') :: insert_ref k a r
+  end.
+(* BTreeMap::remove *)
+Fixpoint remove_ref {A} (k : fieldref) (l : list (fieldref * A)) : option (list (fieldref * A)) :=
+  match l with
+  | [] => None
+  | (k', a') :: r => if fieldref_eqb k k' then Some r
+                     else match remove_ref k r with Some r' => Some ((k', a') :: r') | None => None end
+  end.
+
 Record graph := mkGraph {
   g_starts : string -> params -> list vertex;                 (* resolve_starting_vertices *)
   g_prop   : string -> string -> vertex -> fv;                (* resolve_property: type, field *)
